@@ -49,6 +49,8 @@ class IfWriteHandler(AbstractWriteHandler):
     ):
         super().__init__(start_vertex, decompiler, parent)
         self.ended_on_jump = True
+        # The vertex the flow continues at after an elseif-branch (the end label of the if), if one got there.
+        self._v_after_else_if_branch: Vertex | None = None
 
     def write_content(self) -> Vertex | None:
         op: SsbLabelJump = self.start_vertex["op"]
@@ -114,6 +116,9 @@ class IfWriteHandler(AbstractWriteHandler):
             ), f"Invalid if-structure for if {m.if_id}"
 
             if v_after_if_branch is None:
+                if v_after_else_branch is None:
+                    # The if- and the else-branch end with jumps. An elseif-branch may still run into the end label.
+                    return self._v_after_else_if_branch
                 return v_after_else_branch
             return v_after_if_branch
 
@@ -213,13 +218,15 @@ class IfWriteHandler(AbstractWriteHandler):
 
                 with Blk(self.decompiler):
                     # Handle elseif-branch
-                    BlockWriteHandler(
+                    v_after_else_if_branch = BlockWriteHandler(
                         if_edge.target_vertex,
                         self.decompiler,
                         self,
                         self.start_vertex,
                         check_end_block=self.check_end_block,
                     ).write_content()
+                    if v_after_else_if_branch is not None:
+                        self._v_after_else_if_branch = v_after_else_if_branch
                 next_vertex_ends = isinstance(else_edge.target_vertex["op"], SsbLabel) and any(
                     isinstance(mx, IfEnd) and m.if_id == mx.if_id for mx in else_edge.target_vertex["op"].markers
                 )
